@@ -3,6 +3,13 @@
 earlier seeded changes of that property) and PROMPT.txt for a round of seeded-change sub-agents."""
 import json, os, subprocess, sys, glob
 N = sys.argv[1]
+EXTRA = ''
+if int(N) >= 10:
+    EXTRA = ("For this round prefer, where the property allows it, a defect made of TWO cooperating sites that each look fine "
+             "when reviewed alone (e.g. a helper whose contract is subtly changed plus one caller that relied on the old contract; an encoder-side "
+             "and a decoder-side change that agree with each other but not with the specification; a cached / precomputed value plus one code path that "
+             "does not invalidate it), or one that needs a multi-step sequence of public operations (decode, then edit a public field or pass the value "
+             "through a builder or another structure, then encode / call a helper) rather than a single call on a single input. ")
 props = {json.loads(l)['id']: json.loads(l) for l in open('/verif/properties.jsonl')}
 os.makedirs(f'/tmp/seed{N}', exist_ok=True)
 for pid, p in props.items():
@@ -26,7 +33,7 @@ for pid, p in props.items():
 Read {base}/PROPERTY.txt: it states a semantic property the library is supposed to have. Your job: make a source change to the library (under {base}/repo/src only) of the kind that really happens in maintenance pull requests and survives review — e.g. factoring duplicated code into a shared helper or macro, replacing a hand-written loop by iterator adaptors, switching a data structure, adding support for a new registered value / header parameter / entry point, tightening or relaxing validation "for interoperability" or "hardening", a performance shortcut or cache, porting code to a newer API of a dependency, handling an error more "gracefully", a no_std / allocation-saving rewrite — with a slip in it such that
  1. the crate still compiles and the ENTIRE existing test suite still passes unedited (`cargo test --offline`), and
  2. the property in PROPERTY.txt is now violated for some inputs or call sequences.
-{k} earlier seeded defects for this same property are described in {base}/EARLIER.txt; all of them were eventually detected by the framework under test (an automated property-based tester with structured generators for every COSE structure, reference models of acceptance, an independent CBOR codec, boundary lattices for integers, lengths and nesting depth, related texts / sibling structures / correlated headers, builder call-sequence models, in-memory states reachable only through public fields, and byte-level fuzzing). First make a table for yourself: every clause of the property statement x every public type / function / trait method in src/ that the clause covers (all eight message structures and their nested forms, headers in both buckets and in counter-signatures, keys and key sets, claims sets, KDF context parts, registry label types, every builder method and constructor, tagged and untagged and Value-level entry points, encode as well as decode direction, error *kinds* as well as acceptance, derived or hand-written trait impls such as Clone / PartialEq / Debug / Default / Ord / Hash / From where the property depends on them, the `std` feature). Cross out what the earlier defects touched. Put your defect in a cell that is still blank; among blank cells prefer one where the violation shows only under a combination an automated tester is unlikely to assemble (a particular pair of features used together, a particular order of calls, a value that is legal but that nobody writes, a structure used in a role it is rarely used in). It must not be exposed by the existing tests, and it must be a genuine violation of the property as stated (not merely a behaviour change the statement does not cover).
+{k} earlier seeded defects for this same property are described in {base}/EARLIER.txt; all of them were eventually detected by the framework under test (an automated property-based tester with structured generators for every COSE structure, reference models of acceptance, an independent CBOR codec, boundary lattices for integers, lengths and nesting depth, related texts / sibling structures / correlated headers, builder call-sequence models, in-memory states reachable only through public fields, and byte-level fuzzing). First make a table for yourself: every clause of the property statement x every public type / function / trait method in src/ that the clause covers (all eight message structures and their nested forms, headers in both buckets and in counter-signatures, keys and key sets, claims sets, KDF context parts, registry label types, every builder method and constructor, tagged and untagged and Value-level entry points, encode as well as decode direction, error *kinds* as well as acceptance, derived or hand-written trait impls such as Clone / PartialEq / Debug / Default / Ord / Hash / From where the property depends on them, the `std` feature). Cross out what the earlier defects touched. Put your defect in a cell that is still blank; among blank cells prefer one where the violation shows only under a combination an automated tester is unlikely to assemble (a particular pair of features used together, a particular order of calls, a value that is legal but that nobody writes, a structure used in a role it is rarely used in). {EXTRA}It must not be exposed by the existing tests, and it must be a genuine violation of the property as stated (not merely a behaviour change the statement does not cover).
 
 Deliverables, all written under {base}/out/:
  - patch.diff: output of `git -C {base}/repo diff -- src` for your change (source files only).
